@@ -822,17 +822,24 @@ class Interp:
         raise SymError("unary op")
 
     def e_BoolOp(self, e, env, mod):
+        # a symbolic boolean operand is decided once here; its concrete truth value is what flows on
         if isinstance(e.op, ast.And):
             v = True
             for x in e.values:
                 v = self.eval(x, env, mod)
-                if not self.truth(v):
+                t = self.truth(v)
+                if sym.is_symbool(v):
+                    v = t
+                if not t:
                     return v
             return v
         v = False
         for x in e.values:
             v = self.eval(x, env, mod)
-            if self.truth(v):
+            t = self.truth(v)
+            if sym.is_symbool(v):
+                v = t
+            if t:
                 return v
         return v
 
